@@ -52,3 +52,7 @@ impl<T> Opt<T> {
         }
     }
 }
+
+#[cfg(kani)]
+#[path = "/verif/kani/opt.rs"]
+mod kani_verif;
